@@ -113,6 +113,88 @@ def besum_of(v):
     return _BESUM.get(v.get_id()) if isz(v) else None
 
 
+_LEBYTE = {}    # id(byte term) -> (v term, k, n): the term is byte k (little-endian index) of the n-byte value v
+
+
+def int_bytes(v, n):
+    """little-endian list of the n bytes of 0 <= v < 256^n, registered for the integer-level equality peephole"""
+    out = []
+    for k in range(n):
+        if not isz(v):
+            out.append((v >> (8 * k)) & 255)
+            continue
+        t = simp((v / (256 ** k)) % 256) if k else simp(v % 256)
+        if isz(t):
+            _LEBYTE[t.get_id()] = (v, k, n)
+            _KEEP.append(t)
+        out.append(t)
+    return out
+
+
+def _byte_prov(t):
+    """(v, k, n, part) for a char / byte term that is (a hex digit of) byte k of an n-byte integer v, else None"""
+    if not isz(t):
+        return None
+    i = t.get_id()
+    if i in _LEBYTE:
+        v, k, n = _LEBYTE[i]
+        return (v, k, n, 'b')
+    if i in _HEXCHAR:
+        nb = _HEXCHAR[i]
+        j = _tid(nb)
+        if j in _NIB_OF:
+            b, part = _NIB_OF[j]
+            if isz(b) and b.get_id() in _LEBYTE:
+                v, k, n = _LEBYTE[b.get_id()]
+                return (v, k, n, part)
+    return None
+
+
+def _int_runs(ta, tb):
+    """positions where both element lists carry all bytes (or all hex digits) of an n-byte integer in the same order:
+    returns (list of (va, vb), set of covered positions)"""
+    pa = [_byte_prov(t) for t in ta]
+    pb = [_byte_prov(t) for t in tb]
+    eqs, covered = [], set()
+    i = 0
+    L = len(ta)
+    while i < L:
+        a, b = pa[i], pb[i]
+        if a is None or b is None or a[2] != b[2] or a[3] != b[3] or a[1] != b[1]:
+            i += 1
+            continue
+        n, part = a[2], a[3]
+        step = 1 if part == 'b' else 2
+        span = n * step
+        if i + span > L:
+            i += 1
+            continue
+        # order of byte indices along the run (little or big endian), identical on both sides
+        ok = True
+        ks = []
+        for j in range(n):
+            base = i + j * step
+            x, y = pa[base], pb[base]
+            if x is None or y is None or x[0].get_id() != a[0].get_id() or y[0].get_id() != b[0].get_id() \
+                    or x[1] != y[1] or x[2] != n or y[2] != n:
+                ok = False
+                break
+            if part != 'b':
+                x2, y2 = pa[base + 1], pb[base + 1]
+                if x2 is None or y2 is None or x[3] != 'hi' or x2[3] != 'lo' or y[3] != 'hi' or y2[3] != 'lo' \
+                        or x2[0].get_id() != a[0].get_id() or y2[0].get_id() != b[0].get_id() or x2[1] != x[1] or y2[1] != y[1]:
+                    ok = False
+                    break
+            ks.append(x[1])
+        if ok and sorted(ks) == list(range(n)):
+            eqs.append((a[0], b[0]))
+            covered |= set(range(i, i + span))
+            i += span
+        else:
+            i += 1
+    return eqs, covered
+
+
 def _tid(t):
     return t.get_id() if isz(t) else ("c", t)
 
@@ -400,7 +482,13 @@ def seq_eq(a, b):
         if len(ta) != len(tb):
             return False
         conj = []
-        for x, y in zip(ta, tb):
+        runs, covered = _int_runs(ta, tb)
+        for va, vb in runs:
+            if va.get_id() != vb.get_id():
+                conj.append(va == vb)
+        for idx, (x, y) in enumerate(zip(ta, tb)):
+            if idx in covered:
+                continue
             if not isz(x) and not isz(y):
                 if x != y:
                     return False
@@ -463,6 +551,22 @@ def _nondigit_follows(segs):
     if isinstance(nxt, Elems) and nxt.terms and not isz(nxt.terms[0]):
         return not (48 <= nxt.terms[0] <= 57)
     return False
+
+
+class Rat:
+    """exact rational n/d with d a positive python int: the value of int / constant.  Used for the float expressions
+    of the repository (t/60, v/10, w/220.0): float arithmetic is modelled as exact rational arithmetic (assumption)."""
+    __slots__ = ("n", "d")
+
+    def __init__(self, n, d):
+        assert isinstance(d, int) and d > 0
+        self.n, self.d = n, d
+
+    def real(self):
+        return z3.ToReal(zi(self.n)) / self.d
+
+    def __repr__(self):
+        return f"Rat({self.n}/{self.d})"
 
 
 class SymEnum:
